@@ -16,6 +16,9 @@ let () =
                 | "db" -> M_db.handle cmd args
                 | "wal" -> M_wal.handle cmd args
                 | "raft" -> M_raft.handle cmd args
+                | "exec" -> M_exec.handle cmd args
+                | "value" -> M_value.handle cmd args
+                | "open" -> M_open.handle cmd args
                 | "conc" -> M_conc.handle cmd args
                 | "derive" -> M_derive.handle cmd args
                 | _ -> failwith ("unknown module " ^ m))
